@@ -94,7 +94,7 @@ def run(tier, seed):
     gens = [("singles x bodies", K.tla_consts(ids, bodies, MaxClauses=1, WithHist="TRUE")),
             ("pairs", K.tla_consts(ids, ["plain", "table_pk"] if not thorough else bodies, MaxClauses=2, WithHist="TRUE"))]
     if thorough:
-        gens.append(("triples", K.tla_consts(ids, ["last_notnull"], MaxClauses=3, WithHist="TRUE")))
+        gens.append(("triples", K.tla_consts(ids, ["last_notnull", "table_pk", "last_default_num"], MaxClauses=3, WithHist="TRUE")))
     # top-level keys of a clause-free table per mode (what is NOT a clause key)
     modes = sorted({K.CAT[c]["dialect"] for c in ids} | {"sql"})
     outs, _ = C.parse_many([("CREATE TABLE t1 (a int, b varchar(10));", {}, {"output_mode": m}) for m in modes])
